@@ -5,3 +5,4 @@ pub mod logsink;
 pub mod panics;
 pub mod report;
 pub mod util;
+pub mod supervise;
